@@ -30,11 +30,12 @@ def thaw(fs):
 
 
 class TM:
-    __slots__ = ("base", "chars")
+    __slots__ = ("base", "chars", "tab")
 
-    def __init__(self, base=None, chars=None):
+    def __init__(self, base=None, chars=None, tab=8):
         self.base = base  # frozen spec or None
         self.chars = chars if chars is not None else []
+        self.tab = tab    # the text's own tab size, or None when the operation that produced it does not carry one over
 
     # ---- construction
     @classmethod
@@ -47,7 +48,7 @@ class TM:
         return cls(freeze(base), [(c, tuple(o)) for c, o in chars])
 
     def copy(self):
-        return TM(self.base, list(self.chars))
+        return TM(self.base, list(self.chars), self.tab)
 
     @property
     def plain(self):
@@ -68,7 +69,10 @@ class TM:
 
     # ---- editing
     def with_chars(self, chars):
-        return TM(self.base, chars)
+        return TM(self.base, chars, self.tab)
+
+    def without_tab(self):
+        return TM(self.base, self.chars, None)
 
     def append_str(self, s, style=None):
         s = strip(s)
